@@ -7,6 +7,7 @@ CONSTANTS
   CompOps <- CompOpsAll
   LocoOps <- LocoOpsQ
   Targets <- Two
+  Near = FALSE
   MaxOps = 2
 INVARIANT ComponentConsistent
 INVARIANT LocoConsistent
